@@ -203,9 +203,15 @@ func (s *Sim) Learn(st *Step) {
 			ac.OldPw = append(ac.OldPw, ac.Pw)
 		}
 		ac.Pw = np
+		// a completed change revokes the account's cookies; one that errored out midway (e.g. the
+		// token purge itself failed) leaves them in limbo: nothing is demanded of them
+		revoked := Dead
+		if rec.HandlerErr != "" || rec.AdminErr != "" || rec.Panic != "" {
+			revoked = Limbo
+		}
 		for _, c := range s.Cookies {
 			if c.PID == ac.PID && (c.State == Live || c.State == Limbo) {
-				c.State = Dead
+				c.State = revoked
 			}
 		}
 	}
